@@ -345,6 +345,12 @@ class Ctx(object):
             else:
                 self.broken.append(("axiom audit", "%s: %s" % (t, res.get(t, "no audit output"))))
         self.notes["axioms"] = {t: res.get(t) for t in thms}
+        if self.thorough and shutil.which("leanchecker"):
+            # independent re-check of the compiled proof terms by the toolchain's kernel re-checker
+            rc, out = run(["lake", "env", "leanchecker"] + list(prop_modules), cwd=LEAN, timeout=3600)
+            self.notes["leanchecker"] = {"rc": rc, "output": out.strip()[-400:]}
+            if rc != 0:
+                self.broken.append(("leanchecker", out.strip()[-800:]))
         return not self.broken
 
     # -- verdict
